@@ -231,7 +231,12 @@ def createAggregateReplacement (isMax : Bool) (cond : List Lit) (weight : Term) 
     [.lit (posLit chainName (restVars ++ [prevAgg])),
      .clit ((.neg, .sym (.fn chainName (restVars ++ [nextAgg]) false)), [nextLit])]
   let border : Term := .sym (if isMax then .inf else .sup)
-  let vX : Term := .var "X"
+  -- fix (known_findings.json `fixed:`): a variable the copied literals do not use (`UniqueVariables(Rule(head, lits_with_vars))`);
+  -- it was the hard-wired `X` (finding D7)
+  let uvX := UniqueVars.init (Stm.rule 1 1 (.lit (posLit newPred.name (restVars ++ [border]))) litsWith)
+  let vX : Term ← (match uvX.makeUnique "X" with
+    | some (r, _) => pure (Term.var r)
+    | none => throw "fuel: make_unique" : M Term)
   let borderRule : Stm := .rule 1 1 (.lit (posLit newPred.name (restVars ++ [border])))
     ([.lit (posLit minmaxP.name [vX]), .lit (.neg, .sym (.fn chainName (restVars ++ [vX]) false))] ++ litsWith)
   pure (domRules ++ nextRules ++ [auxRule, chainRule, resRule, borderRule])
